@@ -138,7 +138,7 @@ def run(rep, tier):
     except Exception as ex:
         rep.undecided.append(f"phase operator obligations: {ex}")
     kernels.run_generators(rep, ["apply_operator_vector", "apply_operator_matrix"])
-    B.run_b(rep, opcells.optics_cells(tier, common.seed()), ["C11", "C03", "C01"])
+    B.run_b(rep, opcells.optics_cells(tier, common.seed()), ["C11", "C03", "C01"], tier=tier)
     rep.assume("expm (JAX Pade approximant) is the matrix exponential (trusted); machine arithmetic treated as mathematical",
                "Lemma (written): [N, G] = 0  =>  [N, exp(i eta G)] = 0; cascades conserve by induction")
     rep.trust("z3", "pyvc banded-matrix evaluator (own code, numeric cross-check in C12)")
